@@ -734,7 +734,8 @@ pub fn check_case(l: &mut Local, case: &Case) {
 }
 
 pub fn run(ctx: &Ctx) -> Finish {
-    let t = ctx.tier == Tier::Thorough;
+    // the full pair enumeration takes about a second, so both tiers run it
+    let t = true;
     let bs = bases();
     let mut total_single = 0usize;
     let mut total_pairs = 0usize;
